@@ -70,6 +70,8 @@ func Run(p *load.Program, tier string) *oblig.Set {
 	r.atonRule()
 	r.boundsRule()
 	r.errorExits()
+	r.releaseSites()
+	r.memoryUsers()
 	r.dflt()
 	r.effects()
 	return s
